@@ -62,6 +62,15 @@ def main():
         jobs.append(("aggregate-literal:" + how.split(":")[0], "run", [("m.pn", src)]))
     for i in range(1500 if thorough else 120):
         jobs.append(("access-paths", "verify", [("m.pn", agggen.access_program(rng.fork("acc%d" % i))[0])]))
+    # a constant or a structure named like a function (different namespaces): the FUNCTION must keep the symbol
+    for fname, fpub in (("main", ""), ("helper", "pub "), ("helper", "")):
+        for other in ("const %s: i32 = 4;\n", "struct %s\n{\n\ta: i32,\n}\n", "const %s: [2]i32 = [1, 2];\n"):
+            for first in (True, False):
+                o = other % fname
+                fn = "%sfn %s() -> i32\n{\n\treturn: 3\n}\n" % (fpub, fname)
+                mainfn = "" if fname == "main" else "fn main() -> i32\n{\n\treturn: helper()\n}\n"
+                expected_status[len(jobs)] = 3
+                jobs.append(("namesake", "run", [("m.pn", (o + fn if first else fn + o) + mainfn)]))
     # ill-typed programs: rejected on the unchanged tree; whatever a changed typer lets through must still be valid IR
     for src in agggen.illtyped_aggregates():
         jobs.append(("ill-typed-aggregate", "verify", [("m.pn", src)]))
